@@ -1802,3 +1802,44 @@ def stale_snapshot_updates(f: FuncInfo):
                     continue
                 out.append((lp, a, nm, attr))
     return out
+
+
+# ---------------------------------------------------------------------------------------------------------------------- S21
+def misplaced_named_arguments(repo, typer, in_scope):
+    """Shared rule S21: [(function, call, argument, parameter it lands in, callee)] - a positional argument that is a plain name
+    equal to the name of one of the callee's parameters lands in a *different* parameter: `Attr(name, type, value, doc_string)`
+    where the fourth positional parameter is `ref_attr_name` and `doc_string` is keyword-only.  Also returns the number of
+    positional arguments examined."""
+    out, n = [], 0
+    for m in repo.pkg_modules():
+        if m.name.endswith("_test") or not in_scope(m.name):
+            continue
+        for f in m.all_funcs:
+            if isinstance(f.node, ast.Lambda):
+                continue
+            for c in own_nodes(f.node):
+                if not isinstance(c, ast.Call) or not c.args:
+                    continue
+                try:
+                    hits, _ = typer.callees(f, c, False)
+                except Exception:
+                    continue
+                if len(hits) != 1:
+                    continue
+                g = hits[0]
+                if isinstance(g.node, ast.Lambda) or g.module.external:
+                    continue
+                a = g.node.args
+                pos = [x.arg for x in a.posonlyargs + a.args]
+                off = 1 if (g.cls is not None and g.kind not in ("staticmethod",) and (isinstance(c.func, ast.Attribute) or g.name == "__init__")) else 0
+                allp = set(pos) | {x.arg for x in a.kwonlyargs}
+                for i, arg in enumerate(c.args):
+                    if isinstance(arg, ast.Starred):
+                        break
+                    n += 1
+                    pi = i + off
+                    if pi >= len(pos):
+                        continue
+                    if isinstance(arg, ast.Name) and arg.id in allp and arg.id != pos[pi] and arg.id not in ("self", "cls") and pos[pi] not in ("self", "cls"):
+                        out.append((f, c, arg.id, pos[pi], g))
+    return out, n
